@@ -69,12 +69,12 @@ Section CPW.
   (* the END record delivers that window, closed by the END itself *)
   Theorem delivered_window_own hr s items e :
     isS K s = true -> forallb quiet items = true -> isE K e = true ->
-    exists w, spec_out dom dec (rev items ++ s :: hr) e = Some (w ++ [e])
-              /\ filter ownb (w ++ [e]) = s :: filter ownb items ++ [e]
-              /\ (forall x, In x w -> x = s \/ (In x items /\ p_tid x = t)).
+    exists r, spec_out dom dec (rev items ++ s :: hr) e = Some ((s :: r) ++ [e])
+              /\ filter ownb ((s :: r) ++ [e]) = s :: filter ownb items ++ [e]
+              /\ (forall x, In x (s :: r) -> x = s \/ (In x items /\ p_tid x = t)).
   Proof.
     intros S0 Q E0. destruct (window_own hr s items S0 Q) as (w & Hw & Hf & Hm & (r0 & Hr)).
-    exists w. unfold isE in E0. apply andb_true_iff in E0. destruct E0 as [Ek Eq].
+    exists r0. rewrite <- Hr. unfold isE in E0. apply andb_true_iff in E0. destruct E0 as [Ek Eq].
     assert (KE : kof e = K).
     { unfold keyb in Ek. apply andb_true_iff in Ek. destruct Ek as [A B]. apply N.eqb_eq in A, B.
       unfold kof, K in *. cbn [fst snd] in *. now rewrite <- A, <- B. }
@@ -82,7 +82,7 @@ Section CPW.
     { unfold isS in S0. apply andb_true_iff in S0. destruct S0 as [A _]. unfold keyb, kof, K in A. cbn [fst snd] in A.
       apply andb_true_iff in A. destruct A as [_ B]. apply N.eqb_eq in B. now symmetry. }
     split.
-    - unfold spec_out. destruct (p_q e); try discriminate. rewrite KE, Hw, Hr. cbn [app deliver]. now rewrite Cs, decodable.
+    - unfold spec_out. destruct (p_q e); try discriminate. rewrite KE, Hw. rewrite Hr at 1. cbn [app deliver]. rewrite Cs, decodable. now rewrite Hr.
     - split; [|exact Hm]. rewrite filter_app, Hf. cbn [filter]. unfold ownb at 2. rewrite KE.
       unfold keyb. rewrite !N.eqb_refl. cbn [andb app]. reflexivity.
   Qed.
